@@ -20,6 +20,7 @@ calls   crc.shared k bits little | crc.new w poly init xor ri ro table bits litt
         crc9parts form bits sn mask crc32    (form: o = bytes / bytearray / memoryview, b / l = big / little-endian bitarray;
                                               bits: the octets' bits resp. the 0/1 values; crc32: hex or none)
         gpsdate dd mm yy
+        element <module>.<Class> i            (member i of an Enum of the element packages: as_bits)
 -/
 
 namespace Dmr.Driver.Purity
@@ -73,6 +74,7 @@ def parseCall (op : String) (args : List String) : Option Call :=
     let crc ← (if c == "none" then some none else (hexToBytes c).map some)
     some (.crc9Parts form (← bitsArg d) (← sn.toNat?) (← m.toNat?) crc)
   | "gpsdate", [d, m, y] => do some (.gpsDate (← d.toNat?) (← m.toNat?) (← y.toNat?))
+  | "element", [c, i] => do some (.elementBits c (← i.toNat?))
   | _, _ => none
 
 def attrOut : AttrRef → String
